@@ -321,6 +321,76 @@ func replayObligation(p *Prog, prop string, o *Obligation) (string, bool) {
 				}
 				return smtRealToGo(v)
 			},
+			// datavalue: a Go expression (package data) for the data.Value the model assigns to an interface term
+			"datavalue": func(term string) string {
+				tagS, err := mf.value("(i_tag " + term + ")")
+				if err != nil {
+					ferr = err
+				}
+				if !mf.solved {
+					// pass 1: register every term a value of any kind may need
+					pay := "(i_val " + term + ")"
+					mf.intVal(pay)
+					if strings.Contains(o.Query, "(declare-fun unbox!Bool ") {
+						mf.value("(|unbox!Bool| " + pay + ")")
+					}
+					if strings.Contains(o.Query, "(declare-fun unbox!F64 ") {
+						ft := "(|unbox!F64| " + pay + ")"
+						mf.value("(fp.to_real " + ft + ")")
+						mf.value("(fp.isNaN " + ft + ")")
+						mf.value("(fp.isInfinite " + ft + ")")
+						mf.value("(fp.isNegative " + ft + ")")
+					}
+					if strings.Contains(o.Query, "(declare-fun unbox!Str ") {
+						mf.strVal("(|unbox!Str| " + pay + ")")
+					}
+					return "nil"
+				}
+				tag, _ := parseSMTInt(strings.TrimSpace(tagS))
+				name := ""
+				for k, v := range o.Tags {
+					if int64(v) == tag {
+						name = k
+					}
+				}
+				pay := "(i_val " + term + ")"
+				switch {
+				case strings.HasSuffix(name, "data.Int"):
+					v, _ := mf.intVal(pay)
+					return fmt.Sprintf("Int(%d)", v)
+				case strings.HasSuffix(name, "data.Bool"):
+					v, _ := mf.value("(|unbox!Bool| " + pay + ")")
+					return "Bool(" + strings.TrimSpace(v) + ")"
+				case strings.HasSuffix(name, "data.Float"):
+					ft := "(|unbox!F64| " + pay + ")"
+					v, _ := mf.value("(fp.to_real " + ft + ")")
+					nan, _ := mf.value("(fp.isNaN " + ft + ")")
+					inf, _ := mf.value("(fp.isInfinite " + ft + ")")
+					neg, _ := mf.value("(fp.isNegative " + ft + ")")
+					if strings.TrimSpace(nan) == "true" {
+						return "Float(math.NaN())"
+					}
+					if strings.TrimSpace(inf) == "true" {
+						if strings.TrimSpace(neg) == "true" {
+							return "Float(math.Inf(-1))"
+						}
+						return "Float(math.Inf(1))"
+					}
+					return "Float(" + smtRealToGo(v) + ")"
+				case strings.HasSuffix(name, "data.String"):
+					v, _ := mf.strVal("(|unbox!Str| " + pay + ")")
+					return "String(" + strconv.Quote(v) + ")"
+				case strings.HasSuffix(name, "data.Null"):
+					return "Null{}"
+				case strings.HasSuffix(name, "data.Undefined"):
+					return "Undefined{}"
+				case strings.HasSuffix(name, "data.List"):
+					return "List{}"
+				case strings.HasSuffix(name, "data.Map"):
+					return "Map{}"
+				}
+				return "nil"
+			},
 			"field":      fieldTerm,
 			"obligation": func() string { return o.Name },
 			"kind":       func() string { return o.Kind },
